@@ -103,7 +103,7 @@ CHECKS = {
                      "acquire/release sequence of every call is a program.  Locks.tla runs K threads over every multiset of distinct programs "
                      "and every interleaving with std Mutex / writer-preferring RwLock semantics; TLC's deadlock check and <>AllDone decide.  "
                      "A gate-aware lock-order certificate (no compatible cycle of held->wanted edges) extends the result to any K when it holds.",
-                note="K = 2 quick, K = 3 thorough; the stress run (8 / 16 threads) is watched for 10 s without progress"),
+                note="K = 2 quick, K = 3 thorough; the stress run (8 / 16 threads) is watched for 30 s without progress"),
     "C18": dict(ref="5 C18", tech="TLC model checking of Pages.tla + TLA+ trace validation (PagesTrace) of growth histories recorded through the page-ownership hook",
                 text="Pages.tla models the bitmap allocator, structures that write only pages they allocated, and the node table addressed as "
                      "start + n / RPP (with the repaired relocation and, as a sensitivity run, without it).  nvx pages grows real databases to "
